@@ -462,10 +462,17 @@ def boundary_splits(prog, pred, extra_source=None):
 
     def scan(fnode, fold, finfo):
         for n in ast.walk(fnode):
-            if not (isinstance(n, ast.Compare) and len(n.ops) == 1):
+            if not isinstance(n, ast.Compare):
                 continue
-            op = n.ops[0]
-            left, right = n.left, n.comparators[0]
+            operands = [n.left] + list(n.comparators)
+            for i, op in enumerate(n.ops):       # chained comparisons: every adjacent pair
+                left, right = operands[i], operands[i + 1]
+                split = _split_of(op, left, right, fold)
+                if split is not None and split + 1 in _FIELD_MAX:
+                    sites.append((finfo, n, split))
+                    break
+
+    def _split_of(op, left, right, fold):
             split = None
             if isinstance(op, (ast.In, ast.NotIn)) and isinstance(right, ast.Call) and src_of(right.func) == 'range' \
                     and right.args:
@@ -480,13 +487,12 @@ def boundary_splits(prog, pred, extra_source=None):
                     c = lv
                     o = {ast.Lt: ast.Gt, ast.LtE: ast.GtE, ast.Gt: ast.Lt, ast.GtE: ast.LtE}.get(type(op))
                 else:
-                    continue
+                    return None
                 if o in (ast.Lt, ast.GtE):
                     split = c - 1
                 elif o in (ast.LtE, ast.Gt):
                     split = c
-            if split is not None and split + 1 in _FIELD_MAX:
-                sites.append((finfo, n, split))
+            return split
     for f in prog.all_functions():
         if pred(f):
             nfun += 1
